@@ -74,6 +74,11 @@ def _registry(spec):
     from joserfc.jws import JWSRegistry
     if spec == "nonstrict":
         return JWSRegistry(algorithms=W.ALL_ALGS, strict_check_header=False)
+    from joserfc.rfc7797 import JWSRegistry as R7797
+    if spec == "r7797":
+        return R7797(algorithms=W.ALL_ALGS)
+    if spec == "r7797-nonstrict":
+        return R7797(algorithms=W.ALL_ALGS, strict_check_header=False)
     raise ValueError(spec)
 
 
@@ -324,15 +329,23 @@ def run(rng: Rng, tier: str, index: int) -> RunResult:
 
     # ---- cross-protocol: unencoded-payload token at the plain entry points, lenient header check ----
     if form in ("c7797", "f7797"):
-        e = "deserialize_compact" if form == "c7797" else "deserialize_json"
-        if not (form == "c7797" and A.detached is not None):
-            acc, bad, r = check_delivery(e, A.ser, A.detached, conf, ledger, "nonstrict")
-            res.case(index, alg, form, "crossproto", e)
-            res.fired("crossproto.b64false-at-plain-entry")
-            tr.add("x", e, acc)
-            for sig, what in bad:
-                res.violation(ID, sig + ":nonstrict-registry", what + " [b64=false token at %s with strict_check_header=False]" % e,
-                              _repro(e, A.ser, A.detached, conf, ledger, ["crossproto"], "nonstrict"))
+        # every registry that lets the b64 header through, at every entry point that does not implement unencoded payloads
+        deliveries = []
+        if form == "c7797" and A.detached is None:
+            deliveries = [(e, A.ser) for e in ("deserialize_compact", "extract+validate")]
+        elif form == "f7797":
+            general = {"payload": A.ser["payload"], "signatures": [{k: v for k, v in A.ser.items() if k != "payload"}]}
+            deliveries = [("deserialize_json", A.ser), ("deserialize_json", general), ("7797.deserialize_json", general)]
+        for e, tok in deliveries:
+            for regspec in ("nonstrict", "r7797", "r7797-nonstrict"):
+                acc, bad, r = check_delivery(e, tok, A.detached, conf, ledger, regspec)
+                res.case(index, alg, form, "crossproto", e, regspec, "general" if isinstance(tok, dict) and "signatures" in tok else "as-minted")
+                res.fired("crossproto.b64false-at-plain-entry")
+                tr.add("x", e, regspec, acc)
+                for sig, what in bad:
+                    res.violation(ID, sig + (":nonstrict-registry" if regspec == "nonstrict" else ":" + regspec),
+                                  what + " [b64=false token at %s with registry %s]" % (e, regspec),
+                                  _repro(e, tok, A.detached, conf, ledger, ["crossproto"], regspec))
 
     res.events = tr.n
     res.digest = tr.digest()
